@@ -156,6 +156,31 @@ def check(repo, res, tier):
                 '%s registers an actor loop outside Simulation.start' % f.qual)
     # ---- U4 ----------------------------------------------------------------
     consume_once(repo, res, canon, 'C11.U4')
+    # ---- U6: what start() computes on return is a pure function of the state ----
+    from .purity import REPORTING, check_pure
+    res.rule('C11.U6', 'the reporting functions start() calls when it pauses are side-effect free '
+                       '(a pause must not leave traces that a later table shows)')
+    check_pure(repo, res, 'C11.U6', REPORTING,
+               'a pause (start(runtime=k) builds the tables) would alter what the resumed run reports')
+    # ---- U7: the running flag is monotone -----------------------------------
+    res.rule('C11.U7', 'Simulation.running is only ever set to True (outside __init__)')
+    nw = 0
+    for f in repo.all_functions():
+        ffr = Frame(f)
+        for n in walk_no_nested(f.node):
+            if isinstance(n, ast.Assign):
+                for t in n.targets:
+                    if isinstance(t, ast.Attribute) and t.attr == 'running' and canon.c(t, ffr) == FLAG:
+                        if f.name == '__init__':
+                            continue
+                        nw += 1
+                        v = canon.c(n.value, ffr)
+                        (res.ok if v == 'True' else res.bad)(
+                            'C11.U7', f, n, '`%s` in %s' % (short(ast.unparse(n)), f.qual),
+                            'ok' if v == 'True' else 'the running flag is reset to %s: after that a second '
+                            'start() is no longer refused (it registers every actor again) and resume() is refused' % v)
+    if not nw:
+        res.bad('C11.U7', start, None, 'running flag never set', 'start never marks the simulation as running')
     # ---- U5 ----------------------------------------------------------------
     frac = []
     for f in repo.all_functions():
